@@ -73,8 +73,9 @@ YearRangeSets  == {<<R(2016, 2016)>>, <<R(2016, 2018)>>, <<R(2018, 2016)>>, <<R(
                   \cup (IF Wide THEN {<<R(1999, 2001), R(2004, 2004)>>, <<R(2099, 2101)>>, <<R(1969, 1971)>>,
                                       <<R(2037, 2039)>>, <<R(2016, 2016), R(2017, 2017), R(2018, 2018)>>} ELSE {})
 MonthRangeSets == {<<R(201611, 201702)>>, <<R(201602, 201602)>>, <<R(201702, 201611)>>,
-                   <<R(201512, 201601), R(201603, 201605)>>}
-                  \cup (IF Wide THEN {<<R(201612, 201801)>>, <<R(199912, 200003)>>, <<R(210002, 210003)>>,
+                   <<R(201512, 201601), R(201603, 201605)>>,
+                   <<R(201411, 201602)>>}                                  \* one span over two year ends
+                  \cup (IF Wide THEN {<<R(201612, 201801)>>, <<R(201401, 201701)>>, <<R(199912, 200003)>>, <<R(210002, 210003)>>,
                                       <<R(196912, 197001)>>, <<R(201701, 201712)>>,
                                       <<R(201610, 201612), R(201701, 201701), R(201702, 201703)>>} ELSE {})
 DayRangeSets   == {<<R(20161230, 20170102)>>, <<R(20160228, 20160301)>>, <<R(20170102, 20161230)>>,
@@ -195,7 +196,7 @@ WithHs(r, h) == [type |-> r.type, locations |-> r.locations, slices |-> r.slices
 MycatStringRules == {WithHs(WithPart(Base("mycat_string", Sum(p[1])), p), h) : p \in StringParts, h \in HashSlices}
 
 MurmurParams == (IF Wide THEN {0, 1, -1, 2147483647} \X {1, 2, 4} \X {1, 2, 3, 4, 7, 16}
-                         ELSE {0, 1, -1} \X {1, 2, 4} \X {2, 3, 16})
+                         ELSE {0, 1, -1} \X {1, 4} \X {3, 16})
                 \cup (IF Wide THEN {<<0, 160, 2>>, <<1, 160, 4>>} ELSE {<<0, 160, 2>>})   \* Mycat's default bucket count
                 \cup ExtraMurmur
 WithMur(b, s, v) == [type |-> b.type, locations |-> b.locations, slices |-> b.slices, databases |-> b.databases,
